@@ -226,7 +226,7 @@ structure InitResult where
   err : StepErr
 
 /-- `InitAllTables` (serial): fetch every table, build the new set aside, publish it last -/
-def initAllTables (w : World) (now : Int) (p : PeerSt) (b : BackendSt) : InitResult :=
+def initAllTablesRaw (w : World) (now : Int) (p : PeerSt) (b : BackendSt) : InitResult :=
   let p := { p with lastUpdate := now, lastFullUpdate := now, lastFullServiceUpdate := now, lastFullHostUpdate := now }
   -- status first
   let (p, b, e) := query w now p b
@@ -280,6 +280,14 @@ def initAllTables (w : World) (now : Int) (p : PeerSt) (b : BackendSt) : InitRes
           let p := { p with cache := some c }
           let p := if !wasUp then p.recovered now else p
           { p := p, b := b, err := .none }
+
+/-- `InitAllTables` with its deferred clean-up: a rebuild that fails while the previous set is still published
+    does not keep the `program_start` / pid it read from the status table - the restart stays to be detected -/
+def initAllTables (w : World) (now : Int) (p : PeerSt) (b : BackendSt) : InitResult :=
+  let r := initAllTablesRaw w now p b
+  match r.err with
+  | .none => r
+  | _ => if r.p.cache.isSome then { r with p := { r.p with programStart := p.programStart, corePid := p.corePid } } else r
 
 /-! ## comments / downtimes delta (`updateDeltaCommentsOrDowntimes`) -/
 
